@@ -184,8 +184,9 @@ def decode(j):
     if not isinstance(j, dict):
         return j
     if 'enum' in j:
+        from gym_gridverse.representations.spaces import SpaceType
         cls = {'Orientation': Orientation, 'Action': Action, 'Color': go.Color,
-               'DoorStatus': go.Door.Status}[j['enum']]
+               'DoorStatus': go.Door.Status, 'SpaceType': SpaceType}[j['enum']]
         return cls[j['name']]
     if 'Position' in j:
         return Position(*j['Position'])
@@ -228,6 +229,14 @@ def decode(j):
         return cls(*[decode(x) for x in j['args']], **{k: decode(v) for k, v in j.get('kwargs', {}).items()})
     if 'tuple' in j:
         return tuple(decode(x) for x in j['tuple'])
+    if 'raw' in j:
+        cls = resolve(j['raw'])
+        o = cls.__new__(cls)
+        for k, v in j['fields'].items():
+            object.__setattr__(o, k, decode(v))
+        return o
+    if 'dict' in j:
+        return {k: decode(v) for k, v in j['dict'].items()}
     if 'set' in j and 'with' not in j:
         return set(decode(x) for x in j['set'])
     if 'with' in j:
@@ -316,6 +325,10 @@ def rand_input(sort, r, ctx=None):
             raise ValueError('distinct-set of ' + str(sort[1]))
         if sort[0] == 'opt':
             return {'none': 1} if r.random() < 0.4 else rand_input(sort[1], r)
+        if sort[0] == 'raw':
+            return {'raw': sort[1], 'fields': {k: rand_input(v, r) for k, v in sort[2].items()}}
+        if sort[0] == 'dict':
+            return {'dict': {k: rand_input(v, r) for k, v in sort[1].items()}}
         if sort[0] == 'tuple':
             return {'tuple': [rand_input(x, r) for x in sort[1]]}
         if sort[0] == 'with':
@@ -337,6 +350,10 @@ def rand_input(sort, r, ctx=None):
         return r.choice([0.0, 1.0, -1.0, 0.5, 2.5, -3.25])
     if sort == 'None':
         return {'none': 1}
+    if sort == 'SpaceType':
+        return {'enum': 'SpaceType', 'name': r.choice(['CATEGORICAL', 'DISCRETE', 'CONTINUOUS'])}
+    if sort == 'str':
+        return 'name'
     if sort == 'Token':
         return {'token': f'tok{r.randint(0, 10 ** 9)}'}
     if sort == 'Orientation':
@@ -498,7 +515,10 @@ def install_stub(st, sname, ret=None, inputs_json=None):
         rec = {'args': list(a), 'kwargs': dict(k), 'result': res, 'seq': pyvc_rt.next_seq()}
         calls.append(rec)
         return rec['result']
-    setattr(owner, attr, wrapper)
+    if isinstance(orig, property):
+        setattr(owner, attr, property(wrapper))
+    else:
+        setattr(owner, attr, wrapper)
     patched = [(owner, attr, orig)]
     if not isinstance(owner, type):
         # modules that did `from x import f` hold their own reference
